@@ -155,9 +155,11 @@ def run_vx_unit(unit: str, repo: str, scratch: str, tier: str, log: List[str]):
     # proved lemmas of the lemma files (not admits) are obligations too
     for name, fr in r.fns.items():
         short = name.split("::")[-1]
-        if short.startswith("lemma_") and not any(o.name == short for o in obls):
+        if (short.startswith("lemma_") or short.startswith("theorem_")) and not any(o.name == short for o in obls):
+            lerrs = [d for d in r.diagnostics if d["level"] == "error" and short in (d.get("rendered") or "")]
             obls.append(Obligation(f"vx:{unit}:{short}", "VX", unit, short, "discharged" if fr.ok else "failed", "verus/z3",
-                                   fr.time_ms / 1000, detail={} if fr.ok else {"errors": [{"message": "lemma failed"}]}))
+                                   fr.time_ms / 1000, detail={} if fr.ok else {"errors": [{"message": d["message"], "rendered": d["rendered"][:2000]} for d in lerrs]
+                                                                                  or [{"message": "lemma failed"}]}))
     if vacuous:
         obls.append(Obligation(f"vx:{unit}:<vacuity>", "VX", unit, "<vacuity>", "undecided", "verus/z3",
                                detail={"reason": "precondition canaries were PROVED (contradictory requires or axioms): " + ", ".join(vacuous)}))
